@@ -116,6 +116,14 @@ def boundary_vals(rng):
     ]
 
 
+def cached(rng, name, f):
+    """boundary tables are drawn once per generator run (from the same rng) and reused"""
+    d = rng.__dict__.setdefault("_c14", {})
+    if name not in d:
+        d[name] = f(rng)
+    return d[name]
+
+
 def pick_key(rng, state):
     """mostly keys that collide: present in the target, in the small pool, or a filler"""
     r = rng.below(20)
@@ -126,7 +134,7 @@ def pick_key(rng, state):
     if r < 16:
         return rng.choice(FILL)
     if r < 18:
-        return rng.choice(boundary_keys(rng))
+        return rng.choice(cached(rng, "bk", boundary_keys))
     return simple_key(rng, 1 + rng.below(4))
 
 
@@ -135,7 +143,7 @@ def pick_val(rng):
     if r < 8:
         return rnd_val(rng, 1 + rng.below(3))
     if r < 10:
-        return rng.choice(boundary_vals(rng))
+        return rng.choice(cached(rng, "bv", boundary_vals))
     return b"v%d" % rng.below(5)
 
 
@@ -230,12 +238,12 @@ def rnd_header(rng):
     if kind == 9 and ms:    # one invalid key or value: first, middle or last (partial results would show)
         j = rng.choice([0, len(ms) - 1, rng.below(len(ms))])
         if rng.chance(1, 2):
-            ms[j] = (rng.choice([b for b in boundary_keys(rng) if b"," not in b]), ms[j][1])
+            ms[j] = (rng.choice([b for b in cached(rng, "bk", boundary_keys) if b"," not in b]), ms[j][1])
         else:
-            ms[j] = (ms[j][0], rng.choice([b for b in boundary_vals(rng) if b"," not in b]))
+            ms[j] = (ms[j][0], rng.choice([b for b in cached(rng, "bv", boundary_vals) if b"," not in b]))
         return join_ows(rng, ms, rng.chance(1, 3))
     if kind == 10:     # boundary-length keys/values inside a header
-        ms = ms[:rng.below(4)] + [(rng.choice(boundary_keys(rng)[:18]), rng.choice(boundary_vals(rng)[:10]))] + ms[:rng.below(3)]
+        ms = ms[:rng.below(4)] + [(rng.choice(cached(rng, "bk", boundary_keys)[:18]), rng.choice(cached(rng, "bv", boundary_vals)[:10]))] + ms[:rng.below(3)]
         return join_ows(rng, ms, rng.chance(1, 3))
     if kind == 11:     # damage one byte
         h = bytearray(join_ows(rng, ms, rng.chance(1, 2)))
@@ -278,7 +286,7 @@ def gen(rng, tier):
     for h in limit_headers(rng):
         cases.append("H " + hx(h))
         cases.append("H %s | RT 0 | SET 0 %s %s | SET 0 %s %s" % (hx(h), hx(b"new"), hx(b"v"), hx(b"f0"), hx(b"upd")))
-    for _ in range(1500 * n):
+    for _ in range(2500 * n):
         cases.append("H " + hx(rnd_header(rng)))
     # ---- every boundary key / value through Set, Get, Delete and through a header, on a small and on a full list
     full31 = join_ows(rng, members_for(rng, 31), False)
@@ -295,7 +303,7 @@ def gen(rng, tier):
             if b"," not in v:
                 cases.append("H %s | GET 0 %s | RT 0" % (hx(b"a=1,k=" + v + b",b=2"), hx(b"k")))
     # ---- operation sequences
-    for _ in range(700 * n):
+    for _ in range(1300 * n):
         start = rng.below(10)
         if start < 2:
             h = b""
@@ -340,9 +348,15 @@ def neighbours(rng, cases):
 
 
 def shrink(case):
+    """the runner takes the first candidate that still fails: shortest prefixes first, each tried on a few tiny headers
+    before the original one"""
     segs = case.split(" | ")
-    for n in range(1, len(segs)):
-        yield " | ".join(segs[:n])
+    small = ["H x", "H " + hx(b"a=1"), "H " + hx(b"a=1,b=2"), "H " + hx(",".join("f%d=v" % i for i in range(32)).encode())]
+    for n in range(1, len(segs) + 1):
+        for h in small + [segs[0]]:
+            cand = " | ".join([h] + segs[1:n])
+            if cand != case:
+                yield cand
 
 
 LEVEL_TEXT = ("Theorems in coq/Properties_C14.v about the Gallina model of TraceState: every state reachable from FromHeader by any sequence of "
